@@ -9,4 +9,6 @@ const hookAvailable = false
 
 func runPass(b ssa.Builder, name string) { panic("no hook") }
 
+func resolveAlias(b ssa.Builder, v ssa.Value) ssa.Value { return v }
+
 func rpoText(b ssa.Builder) string { return "" }
